@@ -189,6 +189,9 @@ def first_diff(a, b, n=60):
     return {"at": i, "ours": a[max(0, i - n):i + n], "cpython": b[max(0, i - n):i + n]}
 
 
+_lone_cr_guard: list = []
+
+
 def c01(X, src, mode="exec"):
     ck, ref = cpy_parse(src, mode)
     if ck != "ok":
@@ -198,16 +201,14 @@ def c01(X, src, mode="exec"):
         return None
     import re as _re
     lone_cr = False
-    if _re.search(r"\r(?!\n)", src):
-        # the known deviation is "a lone CR is whitespace, not a line end": it explains this input only if the parser
-        # behaves exactly as it does on the same text with a blank in place of each lone CR
-        def brief(k, p):
-            if k == "ok":
-                return ("ok", dump(p))
-            if isinstance(p, SyntaxError):
-                return (k, p.msg, p.lineno, p.offset, p.end_lineno, p.end_offset)
-            return (k,)
-        lone_cr = brief(*run_parse(X, src, mode)) == brief(*run_parse(X, _re.sub(r"\r(?!\n)", " ", src), mode))
+    if _re.search(r"\r(?!\n)", src) and not _lone_cr_guard:
+        # the known deviation is "a lone CR is not a line end": it explains this input if the same text with "\n"
+        # in place of each lone CR is handled correctly
+        _lone_cr_guard.append(1)
+        try:
+            lone_cr = c01(X, _re.sub(r"\r(?!\n)", "\n", src), mode) is None
+        finally:
+            _lone_cr_guard.pop()
     kind, tree = run_parse(X, src, mode)
     if kind != "ok":
         sig = exc_sig(tree) if isinstance(tree, BaseException) else None
@@ -274,6 +275,10 @@ def c02(X, src, mode="exec"):
         tk, toks = run_tokens(X, src)
         if tk == "ok" and any(t.type == X.tokenize.Token.ERRORTOKEN and t.string.isspace() for t in toks):
             v["feature"] = "whitespace-like-character-skipped"
+        elif str(ref.msg).startswith("inconsistent use of tabs"):
+            v["feature"] = "tab-consistency"
+        elif str(ref.msg).startswith("f-string") and tk == "ok" and any(t.type == X.tokenize.Token.FSTRING_START for t in toks):
+            v["feature"] = "fstring-diagnostic"
         return v
     return None
 
